@@ -88,14 +88,14 @@ def Div (r : Nat) (sr sR : PState) : Prop := HasLim sr.errors ∧ sr.recHigh = r
 /-- the cross-run property of a computation whose start state satisfies `c` on the current token -/
 def XC {α : Type} (c : Option Tok → Prop) (m : PI α) : Prop :=
   ∀ (s : PState) (r R : Nat) (ar aR : α) (sr sR : PState), r ≤ R → s.recCur ≤ r → s.recHigh ≤ r → GI s → c s.current →
-    m.run (setL r s) = .ok ar sr → m.run (setL R s) = .ok aR sR → sR.recHigh ≤ R →
+    m.run (setL r s) = .ok ar sr → m.run (setL R s) = .ok aR sR →
     Sync s r R ar aR sr sR ∨ Div r sr sR
 
 def anyTok : Option Tok → Prop := fun _ => True
 def someTok : Option Tok → Prop := fun o => o.isSome = true
 
 theorem xc_weaken {α : Type} {c : Option Tok → Prop} {m : PI α} (h : XC anyTok m) : XC c m :=
-  fun s r R ar aR sr sR h1 h2 h3 g _ hr hR hb => h s r R ar aR sr sR h1 h2 h3 g trivial hr hR hb
+  fun s r R ar aR sr sR h1 h2 h3 g _ hr hR => h s r R ar aR sr sR h1 h2 h3 g trivial hr hR
 
 theorem mapS_ok {α : Type} {f : PState → PState} {x : Res α} {a : α} {s' : PState} (h : Res.mapS f x = .ok a s') :
     ∃ t, x = .ok a t ∧ s' = f t := by
@@ -105,7 +105,7 @@ theorem mapS_ok {α : Type} {f : PState → PState} {x : Res α} {a : α} {s' : 
   | panic m => cases h
 
 theorem xc_of_plain {α : Type} {c : Option Tok → Prop} {m : PI α} (hm : Plain m) : XC c m := by
-  intro s r R ar aR sr sR _ hc hh g _ hr hR _
+  intro s r R ar aR sr sR _ hc hh g _ hr hR
   rw [hm.blind] at hr hR
   obtain ⟨t, e1, rfl⟩ := mapS_ok hr
   obtain ⟨t', e2, rfl⟩ := mapS_ok hR
@@ -121,17 +121,16 @@ def PostC {α : Type} (c : Option Tok → Prop) (m : PI α) (c' : α → Option 
 
 theorem xc_bind {α β : Type} {c : Option Tok → Prop} {c' : α → Option Tok → Prop} (m : PI α) (f : α → PI β)
     (xm : XC c m) (bm : BG m) (pm : PostC c m c') (xf : ∀ a, XC (c' a) (f a)) (bf : ∀ a, BG (f a)) : XC c (m >>= f) := by
-  intro s r R br bR sr sR hrR hc hh g hcs hr hR hbR
+  intro s r R br bR sr sR hrR hc hh g hcs hr hR
   obtain ⟨a1, s1r, h1r, h2r⟩ := bind_dec m f _ sr br hr
   obtain ⟨a1R, s1R, h1R, h2R⟩ := bind_dec m f _ sR bR hR
   have b1r := bm _ a1 s1r (by simpa [setL] using hc) h1r
   have b1R := bm _ a1R s1R (by simp only [setL]; omega) h1R
   have b2R := bf a1R s1R bR sR (by rw [b1R.recCur, b1R.recLimit]; simp only [setL]; omega) h2R
-  have hb1 : s1R.recHigh ≤ R := Nat.le_trans b2R.lo hbR
-  rcases xm s r R a1 a1R s1r s1R hrR hc hh g hcs h1r h1R hb1 with ⟨t, e1, e2, ea, th, tc, tg⟩ | ⟨d1, d2, d3⟩
+  rcases xm s r R a1 a1R s1r s1R hrR hc hh g hcs h1r h1R with ⟨t, e1, e2, ea, th, tc, tg⟩ | ⟨d1, d2, d3⟩
   · subst e1 e2 ea
     have hct : c' a1 t.current := pm (setL r s) a1 (setL r t) (gi_setL g r) hcs h1r
-    rcases xf a1 t r R br bR sr sR hrR (by rw [tc]; exact hc) th tg hct h2r h2R hbR with ⟨t2, e1, e2, ea, th2, tc2, tg2⟩ | d
+    rcases xf a1 t r R br bR sr sR hrR (by rw [tc]; exact hc) th tg hct h2r h2R with ⟨t2, e1, e2, ea, th2, tc2, tg2⟩ | d
     · exact Or.inl ⟨t2, e1, e2, ea, th2, tc2.trans tc, tg2⟩
     · exact Or.inr d
   · have b2r := bf a1 s1r br sr (by rw [b1r.recCur, b1r.recLimit]; simpa [setL] using hc) h2r
@@ -143,7 +142,7 @@ theorem xc_bind {α β : Type} {c : Option Tok → Prop} {c' : α → Option Tok
 
 theorem xc_withNode {α : Type} {c : Option Tok → Prop} (kind : SK) (body : PI α)
     (h : XC c (skipIgnored >>= fun _ => body)) : XC c (withNode kind body) := by
-  intro s r R ar aR sr sR hrR hc hh g hcs hr hR hbR
+  intro s r R ar aR sr sR hrR hc hh g hcs hr hR
   rw [withNode_run] at hr hR
   have e1 : wnPre kind (setL r s) = setL r (wnPre kind s) := rfl
   have e2 : wnPre kind (setL R s) = setL R (wnPre kind s) := rfl
@@ -171,7 +170,7 @@ theorem xc_withNode {α : Type} {c : Option Tok → Prop} (kind : SK) (body : PI
           injection hr with hr1 hr2
           injection hR with hR1 hR2
           subst hr1 hr2 hR1 hR2
-          rcases h (wnPre kind s) r R _ _ s2 s2R hrR hc hh ⟨g.lim, g.acc, g.nf⟩ hcs h1 h2 hbR with ⟨t, e1, e2, ea, th, tc, tg⟩ | ⟨d1, d2, d3⟩
+          rcases h (wnPre kind s) r R _ _ s2 s2R hrR hc hh ⟨g.lim, g.acc, g.nf⟩ hcs h1 h2 with ⟨t, e1, e2, ea, th, tc, tg⟩ | ⟨d1, d2, d3⟩
           · subst e1 e2 ea
             have hbb : b = bR := by
               have : (setL r t).builder.finishNode = (setL R t).builder.finishNode := rfl
@@ -185,14 +184,21 @@ theorem xc_withNode {α : Type} {c : Option Tok → Prop} (kind : SK) (body : PI
 theorem xc_withRec {α : Type} (onLimit body : PI α) (hl : Plain onLimit)
     (hrec : ∀ s a s', GI s → s.current.isSome = true → onLimit.run s = .ok a s' → HasLim s'.errors)
     (xb : XC someTok body) (bb : BG body) : XC someTok (withRec onLimit body) := by
-  intro s r R ar aR sr sR hrR hc hh g hcs hr hR hbR
+  intro s r R ar aR sr sR hrR hc hh g hcs hr hR
   rcases withRec_decH onLimit body _ sR aR hR with ⟨hoverR, hrunR⟩ | ⟨hunderR, s2R, hrunR, hsR⟩
-  · -- the unlimited run cannot hit its limit
-    exfalso
-    have o := hl.out _ aR sR hrunR
-    have : sR.recHigh = max s.recHigh (s.recCur + 1) := o.recHigh
+  · -- the larger limit is hit: then `r = R` is hit at the same place
     have h1 : s.recCur + 1 > R := hoverR
-    omega
+    have oR := hl.out _ aR sR hrunR
+    have hRh : sR.recHigh = max s.recHigh (s.recCur + 1) := oR.recHigh
+    rcases withRec_decH onLimit body _ sr ar hr with ⟨hover, hrun⟩ | ⟨hunder, s2, hrun, hsr⟩
+    · have o := hl.out _ ar sr hrun
+      have hrh : sr.recHigh = max s.recHigh (s.recCur + 1) := o.recHigh
+      refine Or.inr ⟨hrec { setL r s with recHigh := max (setL r s).recHigh ((setL r s).recCur + 1) } ar sr ⟨g.lim, g.acc, g.nf⟩ hcs hrun, ?_, ?_⟩
+      · omega
+      · omega
+    · exfalso
+      have : s.recCur + 1 ≤ r := hunder
+      omega
   · have b2R := bb _ aR s2R (by simpa using hunderR) hrunR
     have hs2R : s2R.recHigh = sR.recHigh := by rw [hsR]
     rcases withRec_decH onLimit body _ sr ar hr with ⟨hover, hrun⟩ | ⟨hunder, s2, hrun, hsr⟩
@@ -214,7 +220,7 @@ theorem xc_withRec {α : Type} (onLimit body : PI α) (hl : Plain onLimit)
       have eR : ({ setL R s with recCur := (setL R s).recCur + 1, recHigh := max (setL R s).recHigh ((setL R s).recCur + 1) } : PState) = setL R sp := rfl
       rw [er] at hrun
       rw [eR] at hrunR
-      rcases xb sp r R ar aR s2 s2R hrR (by simp only [sp]; omega) (by simp only [sp]; omega) ⟨g.lim, g.acc, g.nf⟩ hcs hrun hrunR (by rw [hs2R]; exact hbR)
+      rcases xb sp r R ar aR s2 s2R hrR (by simp only [sp]; omega) (by simp only [sp]; omega) ⟨g.lim, g.acc, g.nf⟩ hcs hrun hrunR
         with ⟨t, e1, e2, ea, th, tc, tg⟩ | ⟨d1, d2, d3⟩
       · subst e1 e2 ea hsr hsR
         refine Or.inl ⟨{ t with recCur := t.recCur - 1 }, rfl, rfl, rfl, th, ?_, ⟨tg.lim, tg.acc, tg.nf⟩⟩
